@@ -22,6 +22,11 @@ case format
            at step 0 = in the preamble of the generator, i.e. "closing the client at request #0")   [oracle only]
   after_close : what a read on the transport does once the handler has closed it (c15_run.AFTER_CLOSE; default "ebadf")
   resp_packet : enc_val
+  conn : "single" (default) | "stapled" (the library's AsyncStapledStreamTransport over two in-memory half transports whose
+         aclose() takes `wclose` / `rclose` loop turns; "connection closed" = both halves closed)      (c15_run.Connection)
+  layer "loop" : a different kind of case (real AsyncTCPNetworkServer on a loopback socket, the client closed by a helper
+         task / on_connection's task / another client's handler / the generator / the peer while the connection task is parked
+         in the transport receive or the generator is busy): format, runner, oracle, generation in vlib/c15_loop.py  [oracle only]
 """
 from __future__ import annotations
 
@@ -58,7 +63,8 @@ TRUSTED_BASE = [
     "hand-written model EasyNet/Model/StreamServer.lean (+ Consumer/Framers) tied to lowlevel/api_async/servers/stream.py, "
     "servers/misc.py, lowlevel/_asyncgen.py by this correspondence check (sampled, not proved)",
     "harness: virtual-time event loop, in-memory transport/listener (vlib/c15_env.py), scripted handlers, canonicaliser, "
-    "endriver line parser",
+    "endriver line parser; for the loopback cases (vlib/c15_loop.py): the kernel's loopback TCP, asyncio's selector loop and "
+    "socket transport, a listener proxy (public backend= extension point) observing the connection tasks",
     "CPython 3.12 async generators / asyncio task scheduling / EasyNetwork cancel scopes: exercised, represented in the model "
     "only by their effect on the receive deadline",
     "payload codecs (str, json, struct) are parameters: a malformed request is a frame the codec rejects",
@@ -73,7 +79,10 @@ RULE = (
     "case = serializer config x frames (valid / malformed / over-limit / truncated tail) x cut sizes x arrival delays x end "
     "(eof, reset, filtered or not) x receive path x layer x handler shape (incl. closing the client before request #j, j = 0 "
     "in the preamble of the first generator of every shape; polling with `yield 0` over pipelined requests) x behaviour of a "
-    "read after a local close; non-trivial = a generator restart or an "
+    "read after a local close x connection kind (single in-memory transport | AsyncStapledStreamTransport over two half "
+    "transports with 0-3 checkpoints in aclose()) | loopback case = closer (helper task, on_connection task, other client's "
+    "handler, generator, peer) x moment (parked in the transport receive at request #k | busy) x aclose / aclose_forcefully "
+    "x spawn x requests per generator x yielded timeout x on_connection kind x receive path; non-trivial = a generator restart or an "
     "on_connection generator or a timeout or a malformed frame or a handler close occurred, keyed by layer/path/features; "
     "distinct by full case digest"
 )
@@ -82,14 +91,26 @@ _aux: dict[str, Any] = {}
 
 
 def _runner(case: dict):
+    if case.get("layer") == "loop":
+        from vlib import c15_loop
+        return c15_loop.run_real
     if case.get("layer") == "tcp":
         from vlib import c15_tcp
+        if case.get("conn", "single") != "single":
+            return c15_tcp.run_tcp_server_conn_session
         return c15_tcp.run_tcp_server_session
     return cr.run_session
 
 
+def real_for_diff(case: dict, real: list[str]) -> list[str]:
+    # per-half detail of a stapled connection: for the oracle and the replay reader, not a line of the model
+    return [ln for ln in real if not ln.startswith("halves ")]
+
+
 def run_real(case: dict) -> list[str]:
     lines, aux = _runner(case)(case)
+    if case.get("layer") == "loop":
+        return lines
     lines = lines + ["wire " + core.hexs(aux["written"])]
     _aux[core.case_digest(case)] = aux
     return lines
@@ -100,6 +121,8 @@ def _model_layer(case: dict) -> str:
 
 
 def model_input(case: dict, real: list[str]):
+    if case.get("layer") == "loop":
+        return None     # real loopback sockets, closers in other tasks: oracle only
     if _has_pre_close(case):
         return None     # closing before asking for a request is not a construct of the model: oracle only
     head = sers.model_head(case["spec"], case["path"], case.get("max_recv", 16384))
@@ -203,6 +226,9 @@ def _expected(case: dict) -> list[str]:
 
 
 def oracle(case: dict, real: list[str]) -> str | None:
+    if case.get("layer") == "loop":
+        from vlib import c15_loop
+        return c15_loop.oracle(case, real)
     for ln in real:
         if ln.startswith(("harness-exc", "main-exc")) or " other:" in ln or ln.startswith("task exc") or ln.startswith("task cancelled"):
             return f"unexpected failure: {ln}"
@@ -311,6 +337,10 @@ def oracle(case: dict, real: list[str]) -> str | None:
         return "client task did not end normally"
     tl = next((ln for ln in real if ln.startswith("transport ")), "")
     if "closed=1" not in tl:
+        hl = next((ln for ln in real if ln.startswith("halves ")), "")
+        if hl:
+            return ("connection not closed when the connection task ended (stapled transport: every half must be closed "
+                    f"and transport.is_closing() true): {hl}")
         return f"connection not closed at the end: {tl}"
     # 7. responses written
     nresp = sum(1 for ln in real if ln.startswith("resp "))
@@ -346,6 +376,9 @@ def _yielded_timeout(case: dict, ev, events) -> str:
 
 
 def nontrivial(case: dict, real: list[str]) -> str | None:
+    if case.get("layer") == "loop":
+        from vlib import c15_loop
+        return c15_loop.nontrivial(case, real)
     feats = []
     starts = sum(1 for ln in real if ln.startswith("gen ") and " start " in ln and not ln.startswith("gen oc"))
     if starts >= 2:
@@ -373,12 +406,18 @@ def nontrivial(case: dict, real: list[str]) -> str | None:
             if pos not in bounds:
                 feats.append("midcut")
                 break
+    if case.get("conn", "single") != "single":
+        feats.insert(0, case["conn"])
     if not feats:
         return None
     return f"{case.get('layer', 'low')}/{case['path']}/" + "+".join(feats)
 
 
 def shrink(case: dict):
+    if case.get("layer") == "loop":
+        from vlib import c15_loop
+        yield from c15_loop.shrink(case)
+        return
     fr = case["frames"]
     for i in range(len(fr)):
         yield {**case, "frames": fr[:i] + fr[i + 1:]}
@@ -402,6 +441,12 @@ def shrink(case: dict):
                 yield {**case, "onconn": oc[:j] + oc[j + 1:]}
     if case.get("after_close", "ebadf") != "ebadf":
         yield {**case, "after_close": "ebadf"}
+    if case.get("conn", "single") != "single":
+        yield {k: v for k, v in case.items() if k not in ("conn", "wclose", "rclose")}
+        if case.get("rclose"):
+            yield {**case, "rclose": 0}
+        if case.get("wclose", 1) > 1:
+            yield {**case, "wclose": 1}
     cuts = case["cuts"]
     if len(cuts) > 1:
         for i in range(len(cuts)):
@@ -419,6 +464,9 @@ def shrink(case: dict):
 
 
 def known_key(case: dict, real: list[str], why: str) -> str:
+    if case.get("layer") == "loop":
+        return (f"layer=loop,path={case['path']},closer={case.get('closer')},moment={case.get('moment')},"
+                f"why={'-'.join(why.split(': ', 1)[-1].split()[:4])}")
     return f"layer={case.get('layer', 'low')},path={case['path']},why={why.split()[0]}"
 
 
@@ -580,6 +628,12 @@ def _variants(rng, case: dict) -> None:
         case["max_recv"] = rng.choice([64, 16384, 16384])
     if rng.random() < 0.3:
         case["after_close"] = rng.choice(["reset", "aborted", "data", "data", "eof"])
+    if rng.random() < 0.12:
+        # the connection is the library's AsyncStapledStreamTransport over two half transports whose aclose() takes
+        # `wclose` / `rclose` loop turns (0 = returns without a checkpoint): "closed" = both halves closed
+        case["conn"] = "stapled"
+        case["wclose"] = rng.choice([1, 1, 1, 2, 3, 0])
+        case["rclose"] = rng.choice([0, 0, 0, 1, 2])
 
 
 def corpus() -> list[dict]:
@@ -660,16 +714,45 @@ def corpus() -> list[dict]:
                                              _valid(LINE, "e"), _fr(b"f", "none")],
                                   "cuts": [1 << 20] if per_gen != 2 else [3, 1 << 20], "delays": [0], "end": "eof", "end_delay": 3,
                                   "filter": True, "max_recv": 16384, "onconn": None, "gens": gens, "resp_packet": ok})
+    # the connection is the library's AsyncStapledStreamTransport (two half transports, the write half's aclose() has a
+    # checkpoint as every I/O backed transport's has): however the session ends — peer EOF, filtered / unfiltered reset,
+    # OSError, the generator finishing, the handler closing the client (graceful close of both halves), a close before
+    # request #0 — BOTH halves must be closed and transport.is_closing() true when the connection task has ended
+    for path in ("copy", "buffered"):
+        for layer in ("low", "high", "tcp"):
+            base = {"spec": LINE, "path": path, "layer": layer, "conv": False, "conn": "stapled",
+                    "frames": [_valid(LINE, "first"), _valid(LINE, "second")], "cuts": [3, 6, 1 << 20], "delays": [0, 1],
+                    "end_delay": 1, "max_recv": 64, "onconn": None, "resp_packet": ok}
+            resp = {**plain, "resp": True}
+            for end, filt in (("eof", True), ("reset", True), ("reset", False), ("oserror", True)):
+                for wclose, rclose in ((1, 0), (2, 1), (0, 0)):
+                    cases.append({**base, "end": end, "filter": filt, "wclose": wclose, "rclose": rclose,
+                                  "gens": [[resp, resp, plain, plain]]})
+            # the generator finishes after one request while the peer is still there (low: that ends the session)
+            cases.append({**base, "end": "eof", "filter": True, "wclose": 1, "rclose": 0, "gens": [[resp], [resp, plain]]})
+            # control: the handler closes the client itself at the second request / before request #0
+            cases.append({**base, "end": "eof", "filter": True, "wclose": 1, "rclose": 1,
+                          "gens": [[resp, {**resp, "close": True}, plain]]})
+            cases.append({**base, "end": "eof", "filter": True, "wclose": 2, "rclose": 0, "after_close": "data",
+                          "gens": [[pre, plain], [plain]]})
+    # real loopback TCP: the client closed by another task / another client's handler / the generator / the peer while the
+    # connection task is parked in the transport receive or the generator is busy (vlib/c15_loop.py)
+    from vlib import c15_loop
+    cases.extend(c15_loop.corpus())
     return cases
 
 
 def generate(rng, tier: str, boost: int):
     n = (5000 if tier == "quick" else 25000) * boost
     layers = ("low", "high", "high", "tcp")
-    for _ in range(n):
+    from vlib import c15_loop
+    lrng = core.sub_rng(rng.getrandbits(32), "c15-loop")
+    for i in range(n):
         c = gen_case(rng, layers)
         if c is not None:
             yield c
+        if i % 20 == 0:
+            yield c15_loop.gen_case(lrng)       # 250 (quick) / 1250 loopback sessions, spread over the run
 
 
 def extra_coverage(stats) -> dict:
